@@ -74,8 +74,11 @@ CLAIMED["C16"] = ("proof",
     "garbage, copies, all admissible b,(f,k), f32/f64; Krum's selection checked for VALIDITY against float64 "
     "scores (ties are structural when m-f-2 <= 1), also with 26-32 rows sharing a large common offset. Also proved "
     "(C16_krum_neighbourhood): the code's 'drop the first of the m-f-1 smallest distances' IS 'the m-f-2 nearest "
-    "OTHER rows' (the dropped entry is the zero distance of the row to itself).",
-    "DESIGN.md §8 C16",
+    "OTHER rows' (the dropped entry is the zero distance of the row to itself); and Krum depends on DIFFERENCES of rows "
+    "only (C16_krum_translation_invariant_selection, C16_krum_translation_equivariant): adding one vector to every row "
+    "leaves distances and weights unchanged and moves the result by that vector -- run on float64 rows 2^30 + small "
+    "deviations, which float32 cannot tell apart.",
+    "DESIGN.md §8 C16, §15.17",
     "Trusted: Coq kernel + stdlib real axioms; Agg.v model; torch.sort/topk/cdist (compared).",
     "Coq proof + fault enumeration")
 CLAIMED["C08"] = ("proof",
